@@ -37,11 +37,11 @@ CHECKS['C14'] = dict(cat='model_checking', ref='5/C14',
     tech='TLA+ functional spec; TLC exhaustive check; TLC-generated behaviours replayed on the real sidecar; TLC trace validation')
 
 CHECKS['C12'] = dict(cat='model_checking', ref='5/C12',
-    text='spec/ProxyStream.tla models one proxied scrape as a streaming state machine; TLC explores it over every scenario of a finite space (body length, every chunking of the upstream reads, identity/gzip, failure kind x offset, short writes, stop, assigned) and checks C12 (exact bytes, status 200, content type) and the prefix invariant on the model; every terminal state is a replay case for the real Proxy.ServeHTTP with a scripted upstream body (unit sizes 1 B .. 300 kB by seed, comment/blank/rejected lines, cuts inside lines) and a real HTTP server/client or a scripted short-writing ResponseWriter; the real outcome must equal the predicted one and TLC (ProxyEval) evaluates C12 on the observations.',
+    text='spec/ProxyStream.tla models one proxied scrape as a streaming state machine; TLC explores it over every scenario of a finite space (body length, every chunking of the upstream reads, identity/gzip, failure kind x offset, short writes, stop, assigned) and checks C12 (exact bytes, status 200, content type) and the prefix invariant on the model; every terminal state is a replay case for the real Proxy.ServeHTTP with a scripted upstream body (unit sizes 1 B .. 300 kB by seed, comment/blank/rejected lines, cuts inside lines) and a real HTTP server/client or a scripted short-writing ResponseWriter; the real outcome must equal the predicted one and TLC (ProxyEval) evaluates C12 on the observations. spec/ProxyPair.tla composes two instances of the machine (two scrapes through the same proxy, steps interleaved in any order, nothing shared); TLC-simulated behaviours of it (400 / 4 000) are replayed on the real proxy with the upstream round trip and every upstream read gated in the order of the behaviour, and each of the two scrapes must end as the specification says it ends alone.',
     note='Prometheus-side write errors are outside the statement; gzip codec correctness is trusted (bodies are really compressed and chunked on the compressed stream).',
     tech='TLA+ streaming state machine; TLC exhaustive scenario enumeration; replay on real proxy; TLC evaluation of formulas on observations')
 CHECKS['C13'] = dict(cat='model_checking', ref='5/C13',
-    text='Same specification and replay as C12, for failing scenarios: connect error, non-200, timeout before headers, body breaking off (unexpected EOF, connection reset, timeout, other error) at every unit offset before and after the response headers were sent, administrative stop; formulas: failed real scrape => Prometheus sees non-200 or an aborted response (observed by a real HTTP client through the proxy), health down with error, successful => up without error, scrape counter +1 exactly once per attempt for an assigned target.',
+    text='Same specifications and replays as C12 (single scrapes and interleaved pairs), for failing scenarios: connect error, non-200, timeout before headers, body breaking off (unexpected EOF, connection reset, timeout, other error) at every unit offset before and after the response headers were sent, administrative stop; formulas: failed real scrape => Prometheus sees non-200 or an aborted response (observed by a real HTTP client through the proxy), health down with error, successful => up without error, scrape counter +1 exactly once per attempt for an assigned target.',
     note='A break exactly at the end of the body is not part-way and is not generated; what an aborted response delivered before the cut is not compared (server buffering).',
     tech='TLA+ streaming state machine; TLC exhaustive scenario enumeration; replay on real proxy; TLC evaluation of formulas on observations')
 
@@ -66,7 +66,7 @@ CHECKS['C20'] = dict(cat='model_checking', ref='5/C20',
     tech='TLA+ model with object identity; TLC exhaustive interleavings + liveness; TLC-derived schedules executed on real explorer; TLC evaluation of history formulas')
 
 CHECKS['C02'] = dict(cat='model_checking', ref='5/C02',
-    text='spec/Pipeline.tla specifies, for a job shape and the label set a target has after relabeling, what plain Prometheus and what the kvass chain make of it (final labels, scheme/host/path/query really requested); TLC enumerates the whole universe (2 schemes x 2 paths x 3 param shapes x 5 address forms incl. IPv6 and missing ports x relabelled scheme/path/configured param/unconfigured param/instance x valid, invalid-name and __tmp labels = 34 560 cases) and shows on the model where the paths differ; every case (quick: 4 000 by seed) is rendered to a real config and target group and run through the vendored Prometheus and through the real chain named in the property (Run -> ActiveTargetsByHash -> JSON -> injector file -> config.Load -> TargetsFromGroup -> Proxy.ServeHTTP -> URL at JobInfo.Cli); TLC (PipelineEval) decides sharded = plain on the observations.',
+    text='spec/Pipeline.tla specifies, for a job shape and the label set a target has after relabeling, what plain Prometheus and what the kvass chain make of it (final labels, scheme/host/path/query really requested); TLC enumerates the whole universe (2 schemes x 2 paths x 3 param shapes x 5 address forms incl. IPv6 and missing ports x relabelled scheme/path/configured param/unconfigured param/instance x valid, invalid-name and __tmp labels x a plain label named like the param x a rejected sibling entry = 414 720 cases) and shows on the model where the paths differ; every case (quick: 6 000 by seed) is rendered to a real config and target group and run through the vendored Prometheus and through the real chain named in the property (Run -> ActiveTargetsByHash -> JSON -> injector file -> config.Load -> TargetsFromGroup -> Proxy.ServeHTTP -> URL at JobInfo.Cli); TLC (PipelineEval) decides sharded = plain on the observations.',
     note='The plain side is the vendored Prometheus library: a disagreement between model and plain side is a model error (exit 2). Relabel programs are rendered as constant replace rules; general regex semantics are the library\'s.',
     tech='TLA+ two-path label/URL model; TLC exhaustive enumeration; differential replay against vendored Prometheus; TLC evaluation on observations')
 CHECKS['C15'] = dict(cat='model_checking', ref='5/C15',
